@@ -151,6 +151,14 @@ abbrev K18 (c : Cfg) (s : S) : Prop := s.cleaned = false → fwdPhase s.phase = 
    (c.oneway = false → s.reqSent = true → s.global = true ∨ s.globalExpired = true) ∧
    (s.phase = .WaitNotify → s.reqSent = true ∨ c.oneway = true))
 
+/-- K19: the worker never sits at `End` without having cleaned -/
+abbrev K19 (s : S) : Prop := s.cleaned = false → s.phase ≠ .End
+/-- K20: a one-way request has no counted client stream -/
+abbrev K20 (c : Cfg) (s : S) : Prop := c.oneway = true → liveCount s.streams = 0
+
+/-- K21: a one-way request arms no timer -/
+abbrev K21 (c : Cfg) (s : S) : Prop := c.oneway = true → s.perTry = false ∧ s.global = false
+
 /-- the inductive invariant -/
 structure Inv (c : Cfg) (ar aq : Nat) (s : S) : Prop where
   k0 : K0 s
@@ -172,12 +180,15 @@ structure Inv (c : Cfg) (ar aq : Nat) (s : S) : Prop where
   k16 : K16 s
   k17 : K17 s
   k18 : K18 c s
+  k19 : K19 s
+  k20 : K20 c s
+  k21 : K21 c s
 
 /-- executable form for the model checker: the clauses in order -/
 def invList (c : Cfg) (ar aq : Nat) (s : S) : List Bool :=
   [ decide (K0 s), decide (K1 s), decide (K2 s), decide (K3 s), decide (K4 s), decide (K5 s), decide (K6 s), decide (K7 s),
     decide (K8 s), decide (K9 c ar s), decide (K10 c aq s), decide (K11 s), decide (K12 s), decide (K13 s), decide (K14 s),
-    decide (K15 s), decide (K16 s), decide (K17 s), decide (K18 c s) ]
+    decide (K15 s), decide (K16 s), decide (K17 s), decide (K18 c s), decide (K19 s), decide (K20 c s), decide (K21 c s) ]
 
 def inv (c : Cfg) (ar aq : Nat) (s : S) : Bool := (invList c ar aq s).all id
 
